@@ -155,6 +155,11 @@ async fn run_case<const R: usize>(hdr: &Hdr, ops: &[Op], out: &mut Vec<String>) 
                             tokio::time::timeout(HOUR, l.a_tx.send(rx)),
                             tokio::time::timeout(HOUR, l.b_rx.recv())
                         );
+                        if sres.is_err() || rres.is_err() {
+                            // the transfer itself can never complete: a chmux-level matter, not part of this property
+                            out.push("abort transfer-hangs".into());
+                            return;
+                        }
                         match sres {
                             Ok(Ok(())) => (),
                             other => {
